@@ -157,7 +157,11 @@ func Parse(input string) (*RootNode, error) {
 	if !p.current.Is(Section) && !p.current.Is(EOF) {
 		return nil, fmt.Errorf(fmt.Sprintf("parser err :%s", p.current.Value))
 	}
-	restcode := p.lex.input[p.current.EndAt:]
+	// the second %% is optional: without it there is no epilogue
+	restcode := ""
+	if p.current.Is(Section) {
+		restcode = p.lex.input[p.current.EndAt:]
+	}
 	return &RootNode{
 			Declare: nodeDeclare,
 			Rules:   &RuleDefNode{RuleDefList: RuDlist},
